@@ -34,9 +34,9 @@ func init() {
 		},
 		N: func(t string) int {
 			if t == "thorough" {
-				return 1200
+				return 4800
 			}
-			return 120
+			return 480
 		},
 		Batch: 8,
 		Init:  sec.SelfTest,
